@@ -74,7 +74,7 @@ def gen(outdir, per_file):
             st = line.strip()
             if st.startswith("#[cfg(test)]") or st.startswith("#[test]"):
                 in_tests = True
-            if in_tests or st.startswith("//") or "similar_verif" in line or "debug_assert" in line or st.startswith("#["):
+            if in_tests or st.startswith("//") or "similar_verif" in line or "verif_hooks" in line or "debug_assert" in line or st.startswith("#["):
                 continue
             if st.startswith(("use ", "pub use ", "fn ", "pub fn ", "impl", "where", "type ", "pub struct", "struct ", "///", "//!")) or "->" in line and st.endswith("{"):
                 continue
